@@ -36,7 +36,7 @@ RW = "xyz"
 PAIRS = ["ss", "tt", "uu", "vv", "dd", "xx", "yy"]
 ALIASES = ["PC", "USR", "LR", "SP", "FP", "GP", "LC0", "SA0", "UGP", "CS0", "M0", "UPCYCLE", "FRAMEKEY", "LC1"]
 IMMS = "rRsSuUmn"
-IDENTS = ["tmp", "EA", "i", "j", "foo1", "cnt_t", "len_t", "my_int32_t", "a", "b", "x1", "RsVx", "Rs", "siVx", "xRsV", "P", "R", "PuNx", "HEX_REG", "R3x",
+IDENTS = ["tmp", "EA", "i", "j", "foo1", "cnt_t", "len_t", "my_int32_t", "OutV", "PutV", "RstV", "NutN", "RuvV", "MsuV", "RtsN", "CvwV", "a", "b", "x1", "RsVx", "Rs", "siVx", "xRsV", "P", "R", "PuNx", "HEX_REG", "R3x",
           "width", "_t", "N", "sV", "iV", "Rdd", "V", "RsN_", "uiv",
           # identifiers that merely start (or end) like a keyword or a built-in terminal
           "done", "format", "iface", "breakpoint", "elsewhere", "ifx", "fort", "int_x", "returned", "doit", "switcher",
@@ -641,6 +641,25 @@ def paren_ident_cases():
     for name in ("cnt_t", "len_t", "my_int32_t", "carry_t", "uint"):
         for op in ("-", "+", "*", "&"):
             out.append(("bin", op, ("atom", ("id", name)), R))
+    return out
+
+
+def stmt_hazard_cases():
+    a, b, c, p_ = (("atom", ("id", n)) for n in ("a", "b", "c", "p"))
+    R = ("atom", ("reg", "R", "s"))
+    out = []
+    for u in ("-", "+"):
+        tail = ("expr", ("un", u, b))
+        out.append(("block", [("block", [("expr", a)]), tail]))
+        out.append(("block", [("if", c, ("block", [("expr", ("assign", "=", a, R))]), None), tail]))
+        out.append(("block", [("block", [("expr", a), ("expr", b)]), ("expr", ("bin", "*", ("un", u, b), c))]))
+    for op in ("*", "-", "+", "&"):
+        for t in ("int32_t", "size8u_t", "uint8_t"):
+            out.append(("expr", ("assign", "=", a, ("bin", op, ("sizeoft", t), ("atom", ("num", "8", None))))))
+    out.append(("expr", ("assign", "=", a, ("call", "foo", [("comma", b, c)]))))
+    out.append(("expr", ("assign", "=", a, ("call", "clz32", [("comma", ("comma", a, b), c)]))))
+    out.append(("expr", ("assign", "=", a, ("call", "clz32", [("stmtexpr", [("expr", ("assign", "=", b, R))], b)]))))
+    out.append(("expr", ("call", "foo", [("comma", b, c)])))
     return out
 
 
